@@ -49,6 +49,25 @@ FILE *fopen(const char *path, const char *mode)
 	return g_open_ret;
 }
 
+/* snprintf for this unit: any length; the destination buffer and its size are RECORDED and checked
+ * in the contract of prf_add (label of the target row, MAX_PRF_LABEL) -- libc then guarantees the
+ * write stays inside [buf, buf+size), i.e. inside the frame of prf_add.  Only buf[0] is actually
+ * written here (any char): the prelude model (NUL at an arbitrary cell) makes the row table
+ * (stride 516, symbolic index, symbolic size) intractable: 30 s .. > 240 s depending on solver luck.
+ * No clause of C13 depends on label contents. */
+char *g_snp_buf; size_t g_snp_size;
+static inline int prf_snprintf(char *s, size_t n)
+{
+	int r = nondet_int();
+	__CPROVER_assume(r >= 0);
+	g_snp_ret = r; g_snp_n++; g_snp_buf = s; g_snp_size = n;
+	if (n > 0 && (size_t) r >= n) g_lowfail++;
+	if (n > 0 && s != NULL) s[0] = nondet_char();
+	return r;
+}
+#undef snprintf
+#define snprintf(s, n, ...) prf_snprintf((s), (n))
+
 #include "pv/prf.c"        /* the real /repo/src/emu/pv/prf.c */
 
 #define ROWSZ sizeof(struct prf_row)
@@ -79,10 +98,10 @@ WITNESS(prf_add);
 long w_index, w_nrows; int w_set;
 int g_pre_set;       /* rows[index].set before the call (0 when out of range) */
 int c_prf_add(struct prf *prf, long index, const char *label)
-__CPROVER_requires(PRF_OBJ(prf) && DIAG_PRE && LOW_PRE)
+__CPROVER_requires(PRF_OBJ(prf) && DIAG_PRE && LOW_PRE && g_snp_n < 1000000u)
 __CPROVER_requires((INR(prf, index) && g_pre_set == prf->rows[index].set) || (!INR(prf, index) && g_pre_set == 0))
 __CPROVER_requires(WBIND(prf_add, w_index == index && w_nrows == prf->nrows && w_set == g_pre_set))
-__CPROVER_assigns(DIAG_FRAME, g_lowfail, g_snp_ret, g_snp_n)
+__CPROVER_assigns(DIAG_FRAME, g_lowfail, g_snp_ret, g_snp_n, g_snp_buf, g_snp_size)
 /* frame = "no overwrite": the only row that may change is the target, and only while it has no
  * name yet; rows outside [0,nrows), other rows and already named rows are not assignable at all
  * (observing one byte of another row instead is intractable: stride 516 is not a power of two) */
@@ -92,6 +111,10 @@ __CPROVER_assigns(INR(prf, index) && prf->rows[index].set == 0: prf->rows[index]
 __CPROVER_ensures((RV == 0) == (INR(prf, index) && g_pre_set == 0 && g_lowfail == OLD(g_lowfail)))
 __CPROVER_ensures(RV == 0 || (RV == -1 && g_err > OLD(g_err)))
 __CPROVER_ensures(RV != 0 || (prf->rows[index].set == 1 && g_snp_ret < MAX_PRF_LABEL))
+/* the name is formatted exactly once, into the label of the target row, bounded by its size */
+__CPROVER_ensures(RV != 0 || (g_snp_n == OLD(g_snp_n) + 1 && g_snp_buf == prf->rows[index].label && g_snp_size == MAX_PRF_LABEL))
+/* a row that is out of range or already named is refused before anything is formatted */
+__CPROVER_ensures((INR(prf, index) && g_pre_set == 0) || g_snp_n == OLD(g_snp_n))
 /* a refused call does not mark the row as named */
 __CPROVER_ensures(RV == 0 || !INR(prf, index) || prf->rows[index].set == g_pre_set)
 ;
